@@ -181,13 +181,36 @@ def gen_items(chk, tier):
     for _ in range(300 if quick else 3000):
         b, l, x, e, st = MT.gen_json_strategy_dict(r, gen_disjoint_dict)
         items.append({'task': {'op': 'merge_json', 'base': b, 'local': l, 'remote': x, 'strategies': st}, 'expected': e, 'src': 'rand-dict-strategy'})
+    # adj-*: both sides patch the SAME list item under different sub-keys AND one side (each in turn, remote twice as often)
+    # inserts / deletes items directly in front of / behind it: cells of a notebook, outputs of a cell, generic JSON lists
+    # of objects / of lists (for these the diffs are built next to the documents: nbdime.diff never patches a generic item)
+    for k in range(150 if quick else 2000):
+        b, l, x, e, sh = MT.gen_adjacent_cell_triple(r, k)
+        args = argsets[(k // 5) % len(argsets)] if k % 5 == 4 else None
+        items.append({'task': {'op': 'merge_nb', 'base': b, 'local': l, 'remote': x, 'args': args}, 'expected': e, 'src': 'adj-cell-subkeys', 'shape': sh})
+    for k in range(60 if quick else 800):
+        b, l, x, e, sh = MT.gen_adjacent_output_triple(r, k)
+        items.append({'task': {'op': 'merge_nb', 'base': b, 'local': l, 'remote': x, 'args': None}, 'expected': e, 'src': 'adj-output-meta-keys', 'shape': sh})
+    for k in range(300 if quick else 4000):
+        b, l, x, e, ld, rd = MT.gen_adjacent_json(r, k, atom, fresh_atom)
+        for side, d, doc in (('local', ld, l), ('remote', rd, x)):
+            if pyspec.wf_problems(b, d) or not pyspec.strict_eq(pyspec.spec_patch(b, d), doc):
+                raise AssertionError('generator bug: the %s diff built by construction does not lead from base to %s' % (side, side))
+        items.append({'task': {'op': 'merge_diffs', 'base': b, 'local': l, 'remote': x, 'ld': ld, 'rd': rd}, 'expected': e, 'src': 'adj-json-given-diffs'})
     return items
 
 def judge(it, res):
     """the property's oracle on one implementation result.  Notebook families built on the cell partition respect the
     differ's alignment (c05_merge.walk_separated); the deep-* families, where both sides patch the same cell by
-    construction, use the recursive walk of c06_meta instead; everything else is judged unconditionally."""
+    construction, use the recursive walk of c06_meta instead (adj-*: the same walk, in which an insertion of one side next
+    to an item BOTH sides patched is allowed); everything else is judged unconditionally."""
     src = str(it.get('src', ''))
+    if src.startswith('adj-'):
+        if isinstance(res, dict) and 'ld' in res and 'rd' in res and not MT.deep_separated(res['ld'], res['rd'], adjacent_ok=True):
+            return 'excluded', 'alignment-not-separated-adjacent'
+        if it.get('shape') and isinstance(res, dict) and 'ld' in res and 'rd' in res and not MT.aligned_as_constructed(it['shape'], res['ld'], res['rd']):
+            return 'excluded', 'alignment-not-as-constructed'
+        return M.judge_disjoint(res, it['expected'], respect_alignment=False)
     if src.startswith('deep-'):
         if isinstance(res, dict) and 'ld' in res and 'rd' in res and not MT.deep_separated(res['ld'], res['rd']):
             return 'excluded', 'alignment-not-separated-deep'
@@ -213,7 +236,7 @@ def run(tier, seed):
         if sig == 'excluded':
             excluded[detail] = excluded.get(detail, 0) + 1
         elif sig:
-            chk.violation(sig, {'task': it['task'], 'expected': it['expected'], 'src': it['src']}, detail)
+            chk.violation(sig, dict({'task': it['task'], 'expected': it['expected'], 'src': it['src']}, **({'shape': it['shape']} if 'shape' in it else {})), detail)
     fam = [it['src'] for it in items]
     seen = {}; rank = []
     for f in fam:
@@ -226,7 +249,9 @@ def run(tier, seed):
                 'owner/action assignments on lists of <=4 (quick) / <=6 distinct items, random disjoint edits of objects, lists, '
                 'multi-line strings (also one level down), generated notebooks from gennb.gen_disjoint_triple under the default and '
                 'the use-* strategies; triples whose sides meet in one mapping under different keys (notebook / cell / output metadata, '
-                'objects with a conflict strategy on their own path; c06_meta); non-trivial = BOTH sides have a non-empty diff, distinct by canonical JSON of the triple',
+                'objects with a conflict strategy on their own path; c06_meta); triples whose sides patch the SAME list item under '
+                'different sub-keys while one side (each in turn) inserts / deletes items directly in front of / behind it: cells, '
+                'outputs, generic lists of objects / lists with by-construction diffs (adj-*; c06_meta); non-trivial = BOTH sides have a non-empty diff, distinct by canonical JSON of the triple',
         'input_distribution': hist, 'traces_validated_against_impl': st['validated'], 'model_impl_mismatches': st['mismatches'],
         'outside_model_hook_reached': st['outside_model'], 'oracle_misses': st['oracle_misses'], 'model_lines': st['lines'],
         'both_sides_changed': both, 'excluded_outside_hypothesis': excluded, 'differ_failed_before_merge': diff_fail, 'exhaustive': False,
